@@ -116,6 +116,38 @@ def run(ctx):
                 ctx.fail('oracle', withsep, impl=(tw or gres[withsep[1]]['parse'])[:400], model=None, expect=tp[:400], note=f'a separator directly after `(` changes the tree of the group: {treesuite.tok_text(withsep)!r} vs {treesuite.tok_text(plain)!r}')
         ctx.evaluations += len(gcases)
     ctx.oblige('suite PARSE.tree (implementation = Lean parser model)', 'suite', dis == 0, f'{dis} disagreement(s)')
+    # source TEXT through the real lexer and the real parser: a blank line separates sub-expressions however it is spelled (spaces
+    # and tabs before, inside and after it), `;` separates statements, and a single line break does neither — the parse tree of
+    # `L <sep> R` has the same shape for every spelling of the same separator
+    if not ctx.replay:
+        exprs = [('1 < 2', '3 < 4'), ('1 + 2', '3 + 4'), ('a', 'b'), ('5 6', '7'), ('{ 1 }', '$ + 1'), ('1 ?> 2', '3 |> 4'), ('(1, 2)', ':k = 3'), ('--1', '2 ~~')]
+        blank = ['\n\n', '\n\t\n', '\n \n', ' \n\n', '\t\n\n', '\n\n\n', '\n \t \n', '\n\n ', '\n\n\t', ' \n \n ', '\t\n\t\n\t', '\n\t\n\t\n', '  \n\n  ']
+        single = ['\n', ' \n', '\n ', '\t\n', '\n\t', ' \n ', '\t\n\t']
+        tcases = []
+        for k, (l_, r_) in enumerate(exprs):
+            for kind, seps in (('blank', blank), ('single', single)):
+                for j, sp in enumerate(seps):
+                    tcases.append(['PTEXT', f'sp{k}{kind[0]}{j}', vlib.esc(l_ + sp + r_), kind, str(k)])
+        ti = vlib.run_impl([c[:3] for c in tcases], 'c02text', per_case_s=5.0)
+        ref = {}
+        nsep = 0
+        for c in tcases:
+            r = ti.get(c[1], 'missing')
+            shape = r.split(' | ')[0]
+            key = (c[4], c[3])
+            nsep += 1
+            ctx.distinct.add(('text', c[2]))
+            if r.split(' ')[0] in ('PANIC', 'HANG', 'ABORT', 'missing', 'improper'):
+                ctx.fail('oracle', c[:3], impl=r[:300], expect='a proper tree or an error', note=f'{r.split(" ")[0]} on source text {vlib.unesc(c[2])!r}')
+                continue
+            if key not in ref:
+                ref[key] = (shape, c)
+            elif shape != ref[key][0]:
+                ctx.fail('oracle', c[:3], impl=r[:300], expect=ref[key][0][:300], note=f'the same separator ({c[3]} line break) spelled {vlib.unesc(c[2])!r} parses to a different tree than spelled {vlib.unesc(ref[key][1][2])!r}')
+            if c[3] == 'blank' and shape.startswith('ok') and not shape.startswith('ok (Subexpression'):
+                ctx.fail('oracle', c[:3], impl=r[:300], expect='ok (Subexpression …', note=f'a blank line does not separate sub-expressions in {vlib.unesc(c[2])!r}')
+        ctx.evaluations += len(tcases)
+        stats['PTEXT separator spellings'] = nsep
     ctx.rule = ('token-list cases: every ordered pair (quick) and triple (thorough) of operator token types — binary, prefix, suffix, implicit space list, comma list, conditional and apply forms — around atoms with and without whitespace tokens, and random deeper expressions with groups, nested expressions and separators; '
                 'the implementation`s node array is converted by the verified toTree and compared with refParse (precedence climbing over the LANGUAGE table, proved PrecOK for every accepted input); the same expressions wrapped as the body of a side-effect block (`[E]`, `7 [E]`) must give the same subtree under the SideEffect node; distinct = distinct token lists inside the reference grammar.')
     ctx.suites = {'PARSE+TREECHK+REFPARSE': len(cases), 'outcomes': stats}
